@@ -985,9 +985,10 @@ class Server:
                         f = self.commands_mapping.get(cmd)
                         if f is not None:
                             coro = f(connection, rest)
-                            if cmd == "abor" and handlers:
-                                # abort applies to what previous commands
-                                # started, let their handlers finish first
+                            if handlers:
+                                # commands of one session are handled in
+                                # order they arrived: handler starts when
+                                # handlers of previous commands returned
                                 coro = self._run_after(handlers.copy(), coro)
                             task = asyncio.create_task(coro)
                             handlers.add(task)
